@@ -45,14 +45,42 @@ SEQ_N = {'quick': 900, 'thorough': 9000}
 PLANS = {}
 
 
+SCALE_N = {'quick': 4, 'thorough': 60}     # per scenario
+SCALE_ALL = ['deep-consumer-generation', 'deep-generation',
+             'many-aggregates', 'many-classes', 'many-consumers',
+             'many-providers-one-consumer', 'many-traits', 'wide-tree']
+SCALE_RULE = (' Plus "scale" histories through the same oracle: one request '
+              'touching 101-300 rows of one kind (consumers in one POST '
+              '/allocations, traits / aggregates / classes of one provider, '
+              'providers of one consumer), one provider or consumer '
+              'collecting 101-300 successful writes (generations past 256), '
+              'one tree of 101-300 providers re-parented; a quarter of them '
+              'served by two worker processes.')
+SCALE_FOR = {
+    'C01': ['many-consumers', 'many-providers-one-consumer', 'many-classes',
+            'deep-consumer-generation'],
+    'C04': ['many-consumers', 'many-providers-one-consumer', 'many-classes'],
+    'C08': ['many-classes', 'many-traits', 'many-aggregates', 'wide-tree',
+            'many-consumers'],
+    'C09': ['wide-tree'],
+    'C10': ['deep-generation', 'deep-consumer-generation', 'many-consumers',
+            'many-traits'],
+    'C11': None,
+    'C12': ['many-consumers', 'deep-consumer-generation',
+            'many-providers-one-consumer'],
+}
+
+
 def _seq_plan(prop, text, extra_assumptions=()):
     def plan(tier):
         return {
             'runs': [('seq', {'variant': prop} if tier == 'quick' else
                       {'variant': prop, 'n_ops': [25, 60, 120]},
-                      SEQ_N[tier])],
+                      SEQ_N[tier]),
+                     ] + [('scale', {'scenarios': [nm]}, SCALE_N[tier])
+                          for nm in (SCALE_FOR[prop] or SCALE_ALL)],
             'level': 'exploration',
-            'rule': SEQ_RULE + ' ' + text,
+            'rule': SEQ_RULE + ' ' + text + SCALE_RULE,
             'assumptions': COMMON_ASSUMPTIONS + list(extra_assumptions),
         }
     return plan
@@ -111,14 +139,25 @@ CONC_ASSUME = [
 ]
 
 
-def _conc_plan(prop, foci, text):
+BIG_N = {'quick': 6, 'thorough': 60}
+BIG_RULE = (' Plus "bigpost" batches: one POST /allocations rewriting (or '
+            'emptying) 101-130 consumers that a set-up POST created, racing '
+            'one or two writes for single consumers of that set (first '
+            'hundred, anywhere, last); each request is parked before its '
+            'first, a middle and each of its last three transactions while '
+            'the others run.')
+
+
+def _conc_plan(prop, foci, text, big=False):
     def plan(tier):
         n = CONC_N[tier] // len(foci)
         return {
             'runs': [('conc', dict(CONC_SCHED[tier], focus=f), n)
-                     for f in foci],
+                     for f in foci] + ([
+                         ('conc', {'n_schedules': 5, 'focus': 'bigpost'},
+                          BIG_N[tier])] if big else []),
             'level': 'exploration',
-            'rule': CONC_RULE + ' ' + text,
+            'rule': CONC_RULE + ' ' + text + (BIG_RULE if big else ''),
             'assumptions': COMMON_ASSUMPTIONS + CONC_ASSUME,
         }
     return plan
@@ -131,14 +170,14 @@ PLANS['C05'] = _conc_plan('C05', ['provider', 'mixed', 'multi', 'reshape'],
 PLANS['C06'] = _conc_plan('C06', ['consumer', 'mixed', 'reshape'],
                           'Oracle: consumer compare-and-swap specification '
                           'linearised by commit order; final allocations == '
-                          'last success in commit order.')
+                          'last success in commit order.', big=True)
 PLANS['C07'] = _conc_plan('C07', ['mixed', 'provider', 'consumer', 'multi',
                                   'reshape'],
                           'Oracle: some serial permutation of the successful '
                           'requests, replayed from the start snapshot, gives '
                           'each of them success and the same stored state; '
                           'failures have no net effect; invariants on the '
-                          'final state.')
+                          'final state.', big=True)
 
 
 FAULT_RULE = ('corpus entry = one generated write request (all write '
